@@ -130,7 +130,8 @@ CLAIMED = {
     "C20": ("conflict selection kernel",
             "The real ConflictList.select_conflicts over real TextConflict / PathConflict objects with SYMBOLIC paths and file "
             "ids, symbolic paths to resolve (versioned or not) and recursion: exactly the conflicts whose path, conflict "
-            "path or file id matches are selected, the two result lists partition the list in order. Persistence of "
+            "path or file id matches are selected, the two result lists partition the list in order - also for two conflicts "
+            "that compare equal (same class, path and file id) and differ only in their conflict path. Persistence of "
             "conflict lists / merge hashes (rio stanzas, Rust, real trees) is outside.",
             "osutils.is_inside_any (Rust) replaced by a validated python model; tree.path2id is a stub"),
     "C21": ("tip movement decision kernel (pull / push without fetching)",
@@ -171,8 +172,10 @@ CLAIMED = {
             "dict literals of the lifted module are association-list dictionaries; fastbencode replaced by a validated model"),
     "C25": ("log ordering laws",
             "Decides the ordering laws (permutation, mainline reversal, block contiguity, involution, depth rebasing) for the "
-            "real reverse_by_depth / _rebase_merge_depth on views of <= 6/8 revisions with symbolic merge depths. View "
-            "calculation and file filtering over a real branch are outside.",
+            "real reverse_by_depth / _rebase_merge_depth on views of <= 6/8 revisions with symbolic merge depths; the linear "
+            "view, the per-file filter, the log generator's level / limit / omit-merges handling, and _generate_all_revisions: "
+            "listing a range with the merge graph loaded lazily equals the listing with the graph loaded at once for every "
+            "placement of merges on the mainline. Merge sorting (compiled) and real branches are outside.",
             "input is a merge-sorted view (depth increases by at most one per step)"),
     "C26": ("lock directory per-operation obligations",
             "One locker running the real LockDir code against an adversarial environment (other processes release / take / "
@@ -235,8 +238,10 @@ CLAIMED = {
             "in-memory transport; dulwich valid_hexsha / git_line replaced by equivalent python"),
     "C39": ("patch application / statistics",
             "iter_patched_from_hunks, Patch.stats_values / pos_in_mod / iter_inserted, parse_line, header formatting on "
-            "symbolic edit scripts and line contents; perturbed old text must give PatchConflict. Diff generation and "
-            "header/range parsing (compiled) are outside.",
+            "symbolic edit scripts and line contents; perturbed old text must give PatchConflict; a hunk whose old and / or new "
+            "text ends without a newline is written with the 'No newline' markers and parses back to the same lines; "
+            "unified_diff_bytes -> iter_hunks -> patcher gives the new text. The compiled sequence matcher and header/range "
+            "parsing are outside (iter_lines_handle_nl is a validated model).",
             "an edit script stands for the diff of its old and new side"),
     "C41": ("testament sensitivity",
             "Two revisions that differ in exactly one attested field (15 fields, 3 testament classes, symbolic values) must "
@@ -245,7 +250,9 @@ CLAIMED = {
     "C42": ("export entry selection kernel",
             "The real breezy.export._export_iter_entries over a stub tree with SYMBOLIC entry paths and a symbolic "
             "sub-directory: exactly the entries of the exported (sub-)tree are yielded, under the right relative path; "
-            "special and filtered entries never. The archive writers (tar/zip/dir, I/O) are outside.",
+            "special and filtered entries never. The directory exporter writes every selected file with its own executable "
+            "bit, content and time stamp (symbolic), makes directories first and symlinks with their target, whatever "
+            "order the tree delivers the contents in. The tar / zip writers and the real file system are outside.",
             "tree is a stub; paths are well-formed '/'-separated tree paths"),
     "C43": ("one incremental upload step over files with symbolic names",
             "The real BzrUploader.upload_tree (with rename_remote / finish_renames / upload_file / delete_remote_file and "
@@ -260,18 +267,21 @@ CLAIMED = {
     "C45": ("eol filter stack",
             "All 7 eol settings on content <= 6/9 arbitrary bytes, every chunk split: NUL content untouched, canonical text "
             "round-trips, writer output form, independence of chunking; the module's look-behind regex is interpreted by the "
-            "generic regex walker. The 'fresh checkout reports no changes' sentence needs a dirstate tree (outside).",
+            "generic regex walker; the file handed to filtered_input_file may return fewer bytes than asked for (symbolic short "
+            "reads, as the io contract allows), so conversion must not depend on how the content arrives. The 'fresh "
+            "checkout reports no changes' sentence needs a dirstate tree (outside).",
             "canonical form as stated in the evidence"),
     "C46": ("clean-tree selection and deletion kernel",
             "The real clean_tree / iter_deletables / _filter_out_nested_controldirs / delete_items over a stub tree whose "
             "unversioned paths have SYMBOLIC names (incl. names that are, or narrowly miss, the detritus suffixes), symbolic "
             "ignored / directory / nested-control-dir flags and every option combination: exactly the requested categories "
-            "are deleted, nested control directories are kept, a dry run touches nothing. WorkingTree.extras and the real "
+            "are deleted, nested control directories are kept (one that this version cannot open stops the command before "
+            "anything is deleted), a dry run touches nothing. WorkingTree.extras and the real "
             "file system are outside.",
             "tree, file system and ui are recording stubs; extras() yields exactly the unversioned paths"),
     "C48": ("ignore pattern matching",
             "The super-regexes built by the real Globster / ExceptionGlobster / _OrderedGlobster for enumerated pattern "
-            "lists (incl. 100-205 patterns) are interpreted over a SYMBOLIC file name and compared with a reference matcher "
+            "lists (incl. 100-205 patterns, and '*.x/y' patterns that look like extension patterns) are interpreted over a SYMBOLIC file name and compared with a reference matcher "
             "written from 'brz help patterns'.",
             "pattern lists are enumerated; reference semantics as stated in the evidence"),
     "C49": ("location section matching",
